@@ -173,7 +173,7 @@ func errKind(err error) string {
 
 // implDecode runs the real decoder and canonicalises its answer.
 func implDecode(phrase string) (e [16]byte, line string) {
-	e, err := wallet.VerifDecodePhrase(phrase)
+	e, err := decodePhrase(phrase)
 	if err != nil {
 		return e, errKind(err)
 	}
@@ -311,7 +311,7 @@ func phraseCase(r *vh.Run, name, phrase string, tags ...string) {
 	checkDecodeOracle(c, phrase, toks, refE, want, got, line)
 	// the same through SeedFromPhrase: error iff the decoder errors; seed = blake2b(entropy)
 	var seed [32]byte
-	err := wallet.SeedFromPhrase(&seed, phrase)
+	err := seedFromPhrase(&seed, phrase)
 	sline := errKind(err)
 	if err == nil {
 		sline = "pre none"
@@ -332,7 +332,7 @@ func phraseCase(r *vh.Run, name, phrase string, tags ...string) {
 	for i := range dirty {
 		dirty[i] = 0xFF
 	}
-	if err2 := wallet.SeedFromPhrase(&dirty, phrase); (err2 == nil) != (err == nil) || (err == nil && dirty != seed) {
+	if err2 := seedFromPhrase(&dirty, phrase); (err2 == nil) != (err == nil) || (err == nil && dirty != seed) {
 		c.Oracle("seedfromphrase-depends-on-destination-content", "SeedFromPhrase(%q) into a zeroed buffer: %x / %v; into a buffer of 0xFF bytes: %x / %v", phrase, seed, err, dirty, err2)
 	}
 	c.Op(strings.TrimSpace(fmt.Sprintf("seedp %d %s", h0, cpsStr(phrase))), sline)
@@ -388,6 +388,27 @@ func refKey(seed [32]byte, index uint64) ed25519.PrivateKey {
 	binary.LittleEndian.PutUint64(buf[32:], index)
 	h := blake2b.Sum256(buf)
 	return ed25519.NewKeyFromSeed(h[:])
+}
+
+// decodePhrase / seedFromPhrase call the real functions; a panic becomes an error "panic: …" (a
+// malformed phrase must be REJECTED WITH AN ERROR; the callers compare the error class with the
+// model's, so a panic is a correspondence failure, and phraseOracle reports it by name)
+func decodePhrase(phrase string) (e [16]byte, err error) {
+	defer func() {
+		if r := recover(); r != nil {
+			err = fmt.Errorf("panic: %v", r)
+		}
+	}()
+	return wallet.VerifDecodePhrase(phrase)
+}
+
+func seedFromPhrase(seed *[32]byte, phrase string) (err error) {
+	defer func() {
+		if r := recover(); r != nil {
+			err = fmt.Errorf("panic: %v", r)
+		}
+	}()
+	return wallet.SeedFromPhrase(seed, phrase)
 }
 
 // keyFromSeed is wallet.KeyFromSeed with a panic turned into the all-zero key (reported by the callers'
@@ -667,11 +688,11 @@ func Run(r *vh.Run) {
 		if kind == "valid" {
 			// (O) directly: the variant and the canonical rendering give the same entropy and seed
 			canon := strings.Join(toks, " ")
-			e1, err1 := wallet.VerifDecodePhrase(phrase)
-			e2, err2 := wallet.VerifDecodePhrase(canon)
+			e1, err1 := decodePhrase(phrase)
+			e2, err2 := decodePhrase(canon)
 			var s1, s2 [32]byte
-			errS1 := wallet.SeedFromPhrase(&s1, phrase)
-			errS2 := wallet.SeedFromPhrase(&s2, canon)
+			errS1 := seedFromPhrase(&s1, phrase)
+			errS2 := seedFromPhrase(&s2, canon)
 			if (err1 == nil) != (err2 == nil) || e1 != e2 || (errS1 == nil) != (errS2 == nil) || s1 != s2 {
 				c := &vh.Case{Name: fmt.Sprintf("ws-%d-vs-canonical", i), Tags: []string{"kind:whitespace-vs-canonical"}, Nontrivial: true,
 					Info: map[string]any{"phrase": phrase, "canonical": canon}}
@@ -743,10 +764,10 @@ func Run(r *vh.Run) {
 		}
 		checkDecodeOracle(c, phrase, toks, refE, want, got, line)
 		var s1, s2 [32]byte
-		if err := wallet.SeedFromPhrase(&s1, phrase); err != nil {
+		if err := seedFromPhrase(&s1, phrase); err != nil {
 			c.Oracle("newseedphrase-rejected-by-seedfromphrase", "%q: %v", phrase, err)
 		}
-		wallet.SeedFromPhrase(&s2, phrase)
+		seedFromPhrase(&s2, phrase)
 		if s1 != s2 {
 			c.Oracle("seedfromphrase-not-deterministic", "%q: %x then %x", phrase, s1, s2)
 		}
@@ -784,7 +805,7 @@ func Run(r *vh.Run) {
 		var seed [32]byte
 		c := &vh.Case{Name: fmt.Sprintf("e2e-%d", i), Nontrivial: true, Tags: []string{"kind:phrase-to-key"}, Info: map[string]any{"phrase": phrase},
 			Key: phrase}
-		if err := wallet.SeedFromPhrase(&seed, phrase); err != nil {
+		if err := seedFromPhrase(&seed, phrase); err != nil {
 			c.Oracle("seedfromphrase-rejects-valid-phrase", "%q: %v", phrase, err)
 		}
 		want := blake2b.Sum256(ent[:])
